@@ -60,7 +60,7 @@ theorem rootNet_inv : NetInv rootNet [] [] [] := by
     · intro x
       show rootS.1.value Lit.trueLit = some true ∧ rootS.1.value Lit.trueLit = some true
       exact ⟨by decide, by decide⟩
-  · refine ⟨(fun e he => by cases he), ?_, (fun c hc => by cases hc), Lra.init_good, (fun x b hb => by cases hb)⟩
+  · refine ⟨(fun e he => by cases he), ?_, (fun c hc => by cases hc), Lra.init_good, (fun x b hb => by cases hb), (fun e he => by cases he)⟩
     intro c hc
     show c.b < rootS.1.vals.length
     have hc' : c ∈ r3.2.2.varDists := hc
